@@ -10,7 +10,7 @@ sys.path.insert(0, os.path.dirname(os.path.abspath(__file__)))
 from v2lib import Unsupported  # noqa: E402
 
 VERIF = os.path.dirname(os.path.dirname(os.path.abspath(__file__)))
-SRC = '/repo/src/CircuitCalculator'
+SRC = os.path.join(os.environ.get('VERIF_REPO', '/repo'), 'src', 'CircuitCalculator')
 GEN = os.path.join(VERIF, 'coq', 'Gen')
 
 
